@@ -49,9 +49,9 @@ def gen(tier, seed):
                     if tier == "quick" or cmd[0] in ("goto", "move"):
                         specs.append((cmd[0] + ":" + sp[0], 0, src, [], pre + [("breakadd", ("addr", orig + 1)), cmd] + tail))
     # offsets that overflow 16 bits: extremes from PCs / labels at high addresses
-    for orig in (0x8000, 0xFD00, 0x3000):
-        for pc in (orig, orig + 3):
-            for off in (0x7FFF, 0x7FFE, -0x8000, -0x7FFF, 0x4000, -0x4000, 1, -1):
+    for orig in (0x8000, 0xFD00, 0x3000, 0x0000):
+        for pc in (orig, orig + 2, orig + 3):
+            for off in (0x7FFF, 0x7FFE, -0x8000, -0x7FFF, 0x4000, -0x4000, 1, -1, -2, -3, -4, -5, -100, 2, 3, 0x200, -0x200):
                 for cmd in ("goto", "move", "breakadd", "breakremove", "print", "assembly"):
                     m = ("pcoff", off)
                     c = (cmd, ("mem", m), 0x4242) if cmd == "move" else ((cmd, ("mem", m)) if cmd == "print" else (cmd, m))
